@@ -428,8 +428,11 @@ func (r *runner) runConc(ex []tr.Ev, batched bool) []tr.Ev {
 		if opName == "sburst" {
 			opName = "burst"
 		}
+		if opName == "sdelrace" {
+			opName = "delrace"
+		}
 		ds := []interface{}{}
-		if opName == "burst" {
+		if opName == "burst" || opName == "delrace" {
 			ds = tr.List(op["ds"])
 		}
 		call := tr.Ev{"ev": "call", "p": p, "op": opName, "k": tr.I(op, "k"), "c": tr.S(op, "c"),
@@ -452,6 +455,36 @@ func (r *runner) runConc(ex []tr.Ev, batched bool) []tr.Ev {
 				} else {
 					obs = append(obs, "!"+tr.S(g, "st"))
 				}
+			}
+			ret = tr.Ev{"ev": "ret", "p": p, "res": res, "obs": obs}
+		case "sdelrace":
+			// per element of ds: write it, then `par` Store-level deletes of the key at the same time; recorded
+			// compactly: how many of them reported that they removed the blob
+			res := "ok"
+			obs := []interface{}{}
+			par := tr.I(op, "par")
+			for _, d := range ds {
+				w := r.storeOp(vid, p, tr.Ev{"op": "swrite", "k": op["k"], "c": op["c"], "d": d}, batched)
+				if tr.S(w, "res") != "ok" {
+					res = "err"
+				}
+				var dwg sync.WaitGroup
+				var removed int64
+				go0 := make(chan struct{})
+				for j := 0; j < par; j++ {
+					dwg.Add(1)
+					go func() {
+						defer dwg.Done()
+						<-go0
+						x := r.storeOp(vid, p, tr.Ev{"op": "sdelete", "k": op["k"], "c": op["c"]}, batched)
+						if tr.S(x, "res") == "removed" {
+							atomic.AddInt64(&removed, 1)
+						}
+					}()
+				}
+				close(go0)
+				dwg.Wait()
+				obs = append(obs, int(removed))
 			}
 			ret = tr.Ev{"ev": "ret", "p": p, "res": res, "obs": obs}
 		case "swrite", "sdelete", "sread":
